@@ -974,6 +974,10 @@ fn stock_with_rule(case: &Case, enforce_create_guard: bool) -> (Vec<RuleVerdict>
     let mut diverged = false;
     for (i, tx) in case.txs.iter().enumerate() {
         evm.inspector.1.begin_tx();
+        let sender_nonce_before = {
+            use revm::Database;
+            evm.ctx.journaled_state.database.basic(tx.caller).ok().flatten().map(|i| i.nonce).unwrap_or(0)
+        };
         match evm.inspect_tx(tx.clone()) {
             Ok(ras) => {
                 let mut verdict = RuleVerdict::Holds;
@@ -1007,8 +1011,10 @@ fn stock_with_rule(case: &Case, enforce_create_guard: bool) -> (Vec<RuleVerdict>
                 }
                 if let RuleVerdict::Violated { twin, pre_nonce, .. } = &mut verdict {
                     diverged = true;
-                    // sender nonce before this transaction: the finalized state holds nonce + 1
-                    *pre_nonce = ras.state.get(&tx.caller).map(|a| a.info.nonce.saturating_sub(1)).unwrap_or(0);
+                    // sender nonce before this transaction (read from the state before it ran; the
+                    // finalized state is no guide: delegated code re-entered during the
+                    // transaction may have bumped the sender's nonce again through CREATE)
+                    *pre_nonce = sender_nonce_before;
                     if !tx.kind.is_create() {
                         // the twin: same pre-state (nothing of `ras` has been committed), same
                         // transaction, root frame reverted at its very end
